@@ -78,6 +78,9 @@ func vfStdBody(p *vfPair) {
 
 // C01 (ii): session pair.
 func vfC01sess(c *hx.Ctx) {
+	c.ByUnit = true
+	hx.NoCache = false
+	vfC01TwoWriters(c)
 	grid := vfPairGrid(!c.Quick())
 	K := hx.Pick(c, 5, 6)
 	c.ByUnit = true
@@ -97,6 +100,90 @@ func vfC01sess(c *hx.Ctx) {
 		c.UnitBudget = left / time.Duration(max(per, 1))
 		b := hx.Pick(c, 2, 3)
 		c.Explore("sess-sched/"+g.name, vfPairParams(cf, b), b, vfPairRun(cf, b, vfStdBody))
+	}
+}
+
+// vfC01TwoWriters: two application goroutines write to ONE session at the same time (and two read from the other end's
+// session). Each Write is one record: the stream must be a concatenation of whole records in some order — a Write is
+// never interleaved with another Write's bytes, however long it is — and concurrent readers together see exactly the
+// stream. Every single scheduling deviation (bound 1).
+func vfC01TwoWriters(c *hx.Ctx) {
+	for _, ciph := range []string{"", "aes-128"} {
+		if c.Quick() && ciph != "" {
+			continue
+		}
+		cf := vfPairCfg{Cipher: ciph, SDS: -1, Stream: true, NoDelay: [4]int{1, 10, 2, 1}, SndWnd: 1024, RcvWnd: 1024, Mtu: 224, ReadBuf: 65536,
+			Pool: vrt.PoolEager, Preempt: 1, Switch: 1, Select: 1, Owners: []string{"C01:"}, HorizonS: 60}
+		body := func(p *vfPair) {
+			p.client.mu.Lock()
+			mss := int(p.client.kcp.mss)
+			p.client.mu.Unlock()
+			recLen := 70 * mss // longer than any batch the library might hand to the core in one go
+			recs := [][]byte{bytes.Repeat([]byte{'A'}, recLen), bytes.Repeat([]byte{'B'}, recLen), bytes.Repeat([]byte{'C'}, 3*mss+5)}
+			var wg vrt.WaitGroup
+			for i := 0; i < 2; i++ {
+				i := i
+				wg.Add(1)
+				vrt.Go(fmt.Sprintf("writer-%d", i), func() {
+					defer wg.Done()
+					if _, err := p.client.Write(recs[i]); err != nil {
+						p.bad("C01:write-error", "writer %d: %v", i, err)
+					}
+					if i == 1 {
+						p.client.Write(recs[2])
+					}
+				})
+			}
+			total := 2*recLen + len(recs[2])
+			var got []byte
+			wg.Add(1)
+			vrt.Go("reader", func() {
+				defer wg.Done()
+				s, err := p.listener.AcceptKCP()
+				if err != nil {
+					p.bad("C01:setup", "accept: %v", err)
+					return
+				}
+				p.mu.Lock()
+				p.server = s
+				p.mu.Unlock()
+				p.tune(s)
+				buf := make([]byte, 65536)
+				for len(got) < total {
+					s.SetReadDeadline(vrt.Now().Add(20 * time.Second))
+					n, err := s.Read(buf)
+					if err != nil {
+						p.bad("C02:session-transfer-not-completed", "reader got %d of %d bytes: %v", len(got), total, err)
+						return
+					}
+					got = append(got, buf[:n]...)
+				}
+			})
+			wg.Wait()
+			if !p.failed() && len(got) == total {
+				// the stream must split into whole records
+				rest := got
+				for len(rest) > 0 {
+					tag := rest[0]
+					want := recLen
+					if tag == 'C' {
+						want = len(recs[2])
+					}
+					if len(rest) < want || !bytes.Equal(rest[:want], bytes.Repeat([]byte{tag}, want)) {
+						run := 0
+						for run < len(rest) && rest[run] == tag {
+							run++
+						}
+						p.bad("C01:concurrent-writes-interleaved", "two goroutines wrote records of %d bytes to one session at the same time: at offset %d of the stream a record tagged %q is interrupted after %d bytes by bytes of another Write", recLen, len(got)-len(rest), tag, run)
+						break
+					}
+					rest = rest[want:]
+				}
+			}
+			p.teardown()
+		}
+		c.UnitBudget = 25 * time.Second
+		c.Explore("two-writers-one-session/cipher="+ciph, vfPairParams(cf, 1), hx.Pick(c, 1, 2), vfPairRun(cf, 1, body))
 	}
 }
 
